@@ -1,4 +1,53 @@
-import BlochVerif.Gc.Model
+import BlochVerif.Gc.Sim
+/-!
+# C11 — the cycle collector is unobservable under every schedule
+
+About `Gc.Model`: the evaluator's mark-sweep collector over a heap of two-field objects, and a register
+machine (program variables, callee locals, pending arguments / return values as root slots) that may be
+interrupted by a collection before every primitive step.  The race-freedom clause of the property is not
+a statement about this model; it is observed with ThreadSanitizer by `tools/props/c11.py` (PARTIAL).
+-/
 namespace BlochVerif.Props.C11
-theorem placeholder : True := trivial
+open BlochVerif.Gc
+
+/-- The mark phase (depth-first, early exit on marked objects, recursion bounded by the heap size) marks
+every object reachable from the roots. -/
+theorem mark_reaches_everything_reachable (h : Heap) (hwf : WFHeap h) (roots : List Nat)
+    (hr : ∀ r ∈ roots, r < h.length) (i : Nat) (hi : Reach h roots i) : i ∈ markRoots h roots :=
+  mark_complete h hwf roots hr i hi
+
+/-- An object still reachable from a variable, a field, a pending argument or a return value is never
+cleared: a collection leaves every reachable object exactly as it was. -/
+theorem collector_never_clears_reachable (h : Heap) (hwf : WFHeap h) (roots : List Nat)
+    (hr : ∀ r ∈ roots, r < h.length) (i : Nat) (hi : Reach h roots i) :
+    (collect h roots)[i]? = h[i]? :=
+  sweep_get_marked h _ i (mark_complete h hwf roots hr i hi)
+
+/-- and it never changes the number of objects or breaks well-formedness of references -/
+theorem collector_preserves_shape (h : Heap) (hwf : WFHeap h) (roots : List Nat) :
+    (collect h roots).length = h.length ∧ WFHeap (collect h roots) :=
+  ⟨sweep_length h _, sweep_wf h _ hwf⟩
+
+/-- Whenever and however often the collector runs — never, at every boundary, or at any subset of
+boundaries — the program prints the same output. -/
+theorem schedule_unobservable (sched : Nat → Bool) (ops : List Op) :
+    runOps sched ops = runOps (fun _ => false) ops :=
+  (exec_sim sched (ops.flatMap compile) 0 0 initSt initSt Sim.refl_init).out
+
+theorem any_two_schedules_agree (s1 s2 : Nat → Bool) (ops : List Op) : runOps s1 ops = runOps s2 ops := by
+  rw [schedule_unobservable s1, schedule_unobservable s2]
+
+/-- the same at the level of arbitrary primitive programs and arbitrary related start states -/
+theorem schedule_unobservable_prims (sched : Nat → Bool) (ps : List Prim) (k k' : Nat) (s1 s2 : St)
+    (h : Sim s1 s2) : (exec sched k ps s1).out = (exec (fun _ => false) k' ps s2).out :=
+  (exec_sim sched ps k k' s1 s2 h).out
+
+/-! ### non-vacuity: the collector does clear cyclic garbage, and programs do print -/
+example : collect [⟨1, some 1, none⟩, ⟨2, some 0, none⟩, ⟨3, none, none⟩] [2] =
+    [⟨1, none, none⟩, ⟨2, none, none⟩, ⟨3, none, none⟩] := by decide
+example : collect [⟨1, some 1, none⟩, ⟨2, some 0, none⟩, ⟨3, none, some 0⟩] [2] =
+    [⟨1, some 1, none⟩, ⟨2, some 0, none⟩, ⟨3, none, some 0⟩] := by decide
+example : (exec (fun _ => true) 0 [.new 7 (-1), .new 8 (-2), .set .a 7 8, .set .a 8 7, .clr 7, .clr 8, .new 0 5] initSt).heap =
+    [⟨-1, none, none⟩, ⟨-2, none, none⟩, ⟨5, none, none⟩] := by decide
+
 end BlochVerif.Props.C11
